@@ -22,4 +22,5 @@ open PubModel.C07
 #print axioms gen_keywords
 #print axioms gen_operator_arms
 #print axioms gen_depth_limit
+#print axioms gen_depth_balanced
 #print axioms gen_cfg_ok
